@@ -60,24 +60,23 @@ Theorem C14_exports_map : forall (es1 es2 m : list (bytes * bytes)),
 Proof. exact (@include_io_perm bytes). Qed.
 Print Assumptions C14_exports_map.
 
-(* ---- printing.  Full statement for the option order of message/service/method/enum blocks: *)
-Definition C14_print_full_statement : Prop :=
-  forall l1 l2, Permutation l1 l2 -> options_for l1 = options_for l2.
-(* refuted in general: extensions defined at the same position of two different files tie
-   (finding 28) and come out in protobuf's Range order *)
-Theorem C14_print_options_refuted : ~ C14_print_full_statement.
-Proof.
-  intro H. destruct options_for_tie_refuted as [a [b [_ Hne]]]. apply Hne. apply H. apply perm_swap.
-Qed.
-Print Assumptions C14_print_options_refuted.
-(* partial: independent of Range order (and of the sorting algorithm) when the indexes are distinct;
-   missing for the full statement: a tie-break for equal indexes *)
-Theorem C14_print_options_partial : forall l1 l2,
-  Permutation l1 l2 -> distinct_on o_index l1 -> options_for l1 = options_for l2.
+(* ---- printing.  The option order of message / service / method / enum blocks (OptionsFor) is the
+   same for every order in which protobuf ranges over the extension fields: after the repair of
+   finding 28 the comparison is a total order (source line, else extension index, ties by full name);
+   an options message holds at most one value per extension, so full names are distinct *)
+Theorem C14_print_options : forall l1 l2,
+  Permutation l1 l2 -> distinct_on o_full l1 -> options_for l1 = options_for l2.
 Proof. exact options_for_perm. Qed.
-Print Assumptions C14_print_options_partial.
-(* ... which is the case for everything the j5s compiler emits (computed over the regenerated
-   call-site and extension tables): per options message the extensions it sets have distinct indexes *)
+Print Assumptions C14_print_options.
+(* the order used before the repair (extension index only) was not: two extensions defined at the
+   same position of two different files came out in Range order, while the repaired order is stable *)
+Theorem C14_print_options_by_index_refuted :
+  exists a b, o_full a <> o_full b /\ options_for_by_index [a; b] <> options_for_by_index [b; a]
+              /\ options_for [a; b] = options_for [b; a].
+Proof. exact options_for_by_index_tie. Qed.
+Print Assumptions C14_print_options_by_index_refuted.
+(* for what the j5s compiler itself emits the indexes alone were already distinct (computed over the
+   regenerated call-site and extension tables); the tie needed a hand-written .proto in the bundle *)
 Theorem C14_emitted_option_indexes_distinct :
   forallb (fun dst => distinct_nat (indexes_on dst))
     ["*descriptorpb.MessageOptions"; "*descriptorpb.ServiceOptions"; "*descriptorpb.MethodOptions"; "*descriptorpb.EnumOptions"]%string = true.
@@ -107,8 +106,9 @@ Example C14_example_imports :
   ensure_all [[106;53]; [98;117]; [106;53]] = [[98;117]; [106;53]] /\ ensure_all [[98;117]; [106;53]] = [[98;117]; [106;53]].
 Proof. vm_compute. split; reflexivity. Qed.
 Example C14_example_options :
-  let http := mkOpt 0 [104] in let meth := mkOpt 5 [109] in
-  distinct_on o_index [http; meth] /\ options_for [meth; http] = [http; meth] /\ options_for [http; meth] = [http; meth].
+  (* (j5.ext.v1.psm) and (buf.validate.message): both extension 0 of their files, no source line *)
+  let psm := mkOpt 0 0 [106] [106] in let val := mkOpt 0 0 [98] [98] in
+  distinct_on o_full [psm; val] /\ options_for [psm; val] = [val; psm] /\ options_for [val; psm] = [val; psm].
 Proof.
   cbv zeta. split; [|split; vm_compute; reflexivity].
   intros a b [<-|[<-|[]]] [<-|[<-|[]]]; cbn; intro H; try reflexivity; discriminate.
